@@ -147,11 +147,12 @@ def proof_gate(prop, whitelist=()):
     while i < len(lines):
         if AX_RE.match(lines[i]):
             i += 1
-            while i < len(lines) and (lines[i].startswith(" ") or ":" in lines[i]) and not AX_RE.match(lines[i]) \
-                    and "Closed under" not in lines[i]:
-                m = re.match(r"^(\S+)\s*:", lines[i])
-                if m:
-                    axioms.append(m.group(1))
+            # the block lists  <name>  followed by an indented  ": <type>"  (possibly on the same line)
+            while i < len(lines) and not AX_RE.match(lines[i]) and "Closed under" not in lines[i] \
+                    and not lines[i].startswith("File ") and not lines[i].startswith("COQ"):
+                ln = lines[i]
+                if ln and not ln[0].isspace():
+                    axioms.append(ln.split(":")[0].strip().split()[0])
                 i += 1
         else:
             i += 1
